@@ -772,7 +772,9 @@ class AdapterLookupBase:
 
     def changed(self, ignored=None):
         super().changed(None)
-        for r in self._required.keys():
+        # Lookups running in other threads add to ``_required`` (see
+        # ``_subscribe``) while this loop runs: iterate over a snapshot.
+        for r in list(self._required):
             r = r()
             if r is not None:
                 r.unsubscribe(self)
